@@ -97,6 +97,7 @@ func ruleC11(r *Report) {
 	r.Rule("C11.gcm-auth", "the plaintext return of the GCM decrypter is dominated by the nil edge of AEAD.Open on the cipher value (no fallback path)", 1)
 	r.Rule("C11.padding", "stripPadding rejects exactly len<1, pad<1, pad>len (a full block of padding is accepted)", 1)
 	r.Rule("C11.errdrop", "no error result is discarded under xmlenc.Decrypt", 1)
+	r.Rule("C11.descent", "the recursion under xmlenc.Decrypt (an encrypted key inside the element re-enters Decrypt) terminates: every call on a cycle of the call graph passes the caller's own element or one obtained from it by descending only (relative etree path without '..'), and every cycle has a descending call", 1)
 
 	fns := sortedFns(p, sc.Decrypt)
 	nr := NewNilRules(r, a, sc)
@@ -108,6 +109,7 @@ func ruleC11(r *Report) {
 	safely(r, func() { checkGCMAuth(r, a, sc, "C11.gcm-auth") })
 	safely(r, func() { checkPadding(r, a, sc, "C11.padding", false) })
 	safely(r, func() { checkErrDrop(r, a, sc, fns, "C11.errdrop") })
+	safely(r, func() { checkDescent(r, p, sc, "C11.descent") })
 }
 
 // ---------------------------------------------------------------------------------------------
@@ -1128,24 +1130,19 @@ func checkGCMAuth(r *Report, a *Analysis, sc *Scope, rule string) {
 		fc := a.Ctx(fn)
 		fc.ensureConds()
 		r.Fn(p.FnName(fn))
-		for _, ret := range fc.Returns() {
-			if len(ret.Results) != 2 || !isNilConst(ret.Results[1]) {
-				continue
+		// every way of leaving without an error (a nil error returned directly, or the nil outcome of a helper the
+		// result is handed to) lies under the nil edge of Open
+		n++
+		cons := fmt.Sprintf("%s: plaintext return dominated by Open == nil", p.FnName(fn))
+		authed := B.False
+		for _, o := range opens {
+			name := "isnil(" + fc.AP(o.(ssa.Value)) + "#1)"
+			if B.HasVar(name) {
+				authed = B.Or(authed, B.Var(name))
 			}
-			n++
-			cons := fmt.Sprintf("%s: plaintext return dominated by Open == nil", p.FnName(fn))
-			ok := false
-			for _, o := range opens {
-				name := "isnil(" + fc.AP(o.(ssa.Value)) + "#1)"
-				if B.HasVar(name) && fc.Implied(ret.Block(), B.Var(name)) {
-					// and the returned bytes are Open's result
-					if ex, okx := ret.Results[0].(*ssa.Extract); okx && ex.Tuple == o.(ssa.Value) && ex.Index == 0 {
-						ok = true
-					}
-				}
-			}
-			r.Check(ok, rule, cons, p.InstrPos(ret), "success return only under the nil edge of Open, returning Open's plaintext", "a plaintext is returned on a path that does not pass the authentication check of Open")
 		}
+		acc := B.Not(fc.NotAcceptFormula())
+		r.Check(acc != B.False && B.Implies(acc, authed), rule, cons, p.Pos(fn.Pos()), "every error-free exit lies under the nil edge of Open", "a plaintext is returned on a path that does not pass the authentication check of Open")
 		// the ciphertext given to Open derives from the cipher value
 		for _, o := range opens {
 			ct := o.Common().Args[2]
@@ -1273,6 +1270,32 @@ func checkPadding(r *Report, a *Analysis, sc *Scope, rule string, strict bool) {
 			r.Bad(rule, c3, p.Pos(fn.Pos()), "the upper bound is pad > len-1: a buffer that is one full block of padding (the empty plaintext) is rejected")
 		default:
 			r.Bad(rule, c3, p.Pos(fn.Pos()), "no upper bound on the padding length")
+		}
+		// row 4 (interoperability only): with 1 <= pad <= len nothing else about the buffer's length or padding byte
+		// rejects (a second bound, e.g. pad >= block size, refuses the full block of padding other implementations emit)
+		if strict {
+			f := rej
+			for _, nm := range []string{emptyA, padLt1, padGtLen, padGtLenM1} {
+				if nm != "" {
+					f = B.Restrict(f, nm, false)
+				}
+			}
+			var extra []string
+			for _, n := range B.Support(f) {
+				ai := a.Atoms[n]
+				if ai == nil {
+					continue
+				}
+				for _, arg := range ai.Args {
+					if strings.Contains(arg, buf+"[") || strings.Contains(arg, "len("+buf+")") {
+						extra = append(extra, n)
+						break
+					}
+				}
+			}
+			sort.Strings(extra)
+			c4 := fmt.Sprintf("%s: a padding count in 1..len is accepted", p.FnName(fn))
+			r.Check(len(extra) == 0, rule, c4, p.Pos(fn.Pos()), "no further reject condition over the buffer's length or padding byte", "a well-formed padding is still refused by "+strings.Join(extra, ", "))
 		}
 	}
 }
